@@ -37,6 +37,24 @@ var properties = map[string]*Property{
 			"run-time panics: a closure panics exactly where the Go operator it applies panics (closures use the Go operators themselves); compile-time rejection conditions are not under contract",
 		},
 	},
+	"C02": {
+		ID:    "C02",
+		Title: "Assignments and compound assignments on every kind of place behave as in Go",
+		Units: []Unit{
+			{Kind: "funcs", Pkg: "fast", Funcs: []string{
+				"(*Comp).varAddConst", "(*Comp).varSubConst", "(*Comp).varMulConst", "(*Comp).varQuoConst", "(*Comp).varRemConst",
+				"(*Comp).varAndConst", "(*Comp).varOrConst", "(*Comp).varXorConst", "(*Comp).varAndnotConst",
+				"(*Comp).varAddExpr", "(*Comp).varSubExpr", "(*Comp).varMulExpr", "(*Comp).varQuoExpr", "(*Comp).varRemExpr",
+				"(*Comp).varAndExpr", "(*Comp).varOrExpr", "(*Comp).varXorExpr", "(*Comp).varAndnotExpr",
+				"(*Comp).varSetConst", "(*Comp).varSetExpr",
+			}},
+		},
+		NotCovered: []string{
+			"non-variable places (place_ops.go, place_set.go, place_shifts.go), shift-assignments on variables (var_shifts.go), varQuoPow2",
+			"dispatch (setVar, setPlace, IncDec), multi-assignment phase discipline (assign2, assignMulti), blank identifier",
+			"composition with the rest of the program (paper induction, DESIGN.md 4.6)",
+		},
+	},
 	"C37": {
 		ID:    "C37",
 		Title: "REPL command lookup resolves unique prefixes and reports ambiguity",
